@@ -166,6 +166,11 @@ pub enum Op {
     Spin { gate: u8 },
     /// connect `outs[out]` to model `target` (C14)
     Connect { out: u8, target: u16, tag: u16 },
+    /// co-simulation: build a small inner simulation (a chain of `models` forwarding
+    /// models, mailbox capacity 1, `threads` = 1: single-threaded executor), process
+    /// `events` events, leave `pending` scheduled events unprocessed, and drop it - all
+    /// inside this handler, i.e. on an executor thread of the outer simulation (C19)
+    Nested { threads: u8, models: u8, events: u8, pending: u8 },
 }
 
 #[derive(Clone, Debug, Serialize, Deserialize, PartialEq, Eq, Hash)]
@@ -585,6 +590,15 @@ impl Node {
                     while !g.load(Ordering::SeqCst) && t0.elapsed() < Duration::from_millis(SPIN_MAX_MS) {
                         std::thread::sleep(Duration::from_micros(200));
                     }
+                    OpRes::Other
+                }
+                Op::Nested {
+                    threads,
+                    models,
+                    events,
+                    pending,
+                } => {
+                    nested_sim(&self.shared, *threads, *models, *events, *pending);
                     OpRes::Other
                 }
                 Op::Connect { out, target, tag } => {
@@ -1329,4 +1343,76 @@ pub fn classify(e: &ExecutionError) -> ErrKind {
 
 pub fn res_kind<T>(r: &Result<T, ExecutionError>) -> Option<ErrKind> {
     r.as_ref().err().map(classify)
+}
+
+// ---------------------------------------------------------------------------
+// Inner simulation of `Op::Nested` (C19: a simulation dropped on an executor
+// thread of another simulation).
+
+#[derive(Clone)]
+pub struct InnerMsg {
+    pub tok: Token,
+    pub hops: u8,
+}
+
+pub struct Inner {
+    pub tok: Token,
+    pub out: Output<InnerMsg>,
+}
+
+impl Inner {
+    pub async fn on(&mut self, m: InnerMsg) {
+        if m.hops > 0 {
+            self.out
+                .send(InnerMsg {
+                    tok: m.tok.clone(),
+                    hops: m.hops - 1,
+                })
+                .await;
+        }
+    }
+}
+impl Model for Inner {}
+
+pub fn nested_sim(shared: &Arc<Shared>, threads: u8, models: u8, events: u8, pending: u8) {
+    let n = models.clamp(1, 4) as usize;
+    let mut ms: Vec<Inner> = (0..n)
+        .map(|_| Inner {
+            tok: Token::new(&shared.tokens),
+            out: Output::default(),
+        })
+        .collect();
+    let boxes: Vec<Mailbox<Inner>> = (0..n).map(|_| Mailbox::with_capacity(1)).collect();
+    for i in 0..n - 1 {
+        ms[i].out.connect(Inner::on, &boxes[i + 1]);
+    }
+    let first = boxes[0].address();
+    let mut init = SimInit::with_num_threads(threads.clamp(1, 2) as usize);
+    for (i, (m, b)) in ms.into_iter().zip(boxes.into_iter()).enumerate() {
+        init = init.add_model(m, b, format!("inner{}", i));
+    }
+    let Ok((mut sim, sched)) = init.init(MonotonicTime::EPOCH) else { return };
+    for _ in 0..events.min(4) {
+        let _ = sim.process_event(
+            Inner::on,
+            InnerMsg {
+                tok: Token::new(&shared.tokens),
+                hops: n as u8,
+            },
+            &first,
+        );
+    }
+    for k in 0..pending.min(3) {
+        let _ = sched.schedule_event(
+            Duration::from_secs(1 + k as u64),
+            Inner::on,
+            InnerMsg {
+                tok: Token::new(&shared.tokens),
+                hops: 1,
+            },
+            &first,
+        );
+    }
+    drop(sim);
+    drop(sched);
 }
